@@ -38,8 +38,9 @@ var (
 // Bit 0 in the first octet is reserved for broadcast or multicast traffic.
 // When we have unicast traffic this bit will be set to 0.
 // For broadcast or multicast traffic this bit will be set to 1.
+// An empty address is not a unicast address.
 func IsUnicastMAC(mac net.HardwareAddr) bool {
-	return mac[0]&0x01 == 0x00
+	return len(mac) > 0 && mac[0]&0x01 == 0x00
 }
 
 // SrcMAC returns the src mac address from an ethernet packet.
